@@ -180,6 +180,33 @@ class Ctx:
                       self.loc(f, live[0]), {'rule': rule, 'guard': what, 'fn': f.id, 'effect_blocks': live[:6], 'candidates': nc})
         return ok
 
+    def loop_reject(self, rule, key, f, targets, matcher, what):
+        """a per-iteration rejection inside a loop: the condition exists, is reachable, its reject arm reaches neither the
+        effect nor a success return, and its pass arm lies on a path to the effect. (Edge deletion cannot express this
+        because the loop may run zero times.)  matcher returns the PASS arm."""
+        base = f.reach([0], blocked=f.errblocks)
+        live = [t for t in targets if t in base]
+        cands = self.find_conds(f, matcher)
+        ok = False
+        for (c, arm) in cands:
+            if arm not in c.arms or c.bb not in base:
+                continue
+            rej = [tb for a2, tb in c.arms.items() if a2 != arm and tb != c.arms[arm]]
+            if not rej:
+                continue
+            r = f.reach(rej)
+            if set(live) & r:
+                continue
+            if f.ok_returns_from(rej):
+                continue
+            if not (set(live) & f.reach([c.arms[arm]], blocked=f.errblocks)):
+                continue
+            ok = True
+            break
+        self.rep.need(rule, key, ok and bool(live), 'per-iteration rejection "%s" must exist before %d effect site(s) in %s (%d candidate condition(s))' % (what, len(live), f.id, len(cands)),
+                      self.loc(f, live[0]) if live else self.loc(f), {'rule': rule, 'guard': what, 'fn': f.id, 'candidates': len(cands)})
+        return ok
+
     def call_guard(self, rule, key, f, targets, pred_call, what, min_targets=1):
         """K6a: a call satisfying pred_call, with its error propagated (`?` / returned), dominates every target block"""
         base = f.reach([0], blocked=f.errblocks)
@@ -229,9 +256,19 @@ class Ctx:
         return not bad
 
     def stmt_rvalue_atoms(self, f, adt, field, narrow=True):
-        """[(bb, atoms)] for every direct assignment to (adt, field) in f: atoms of the assigned value"""
+        """[(bb, atoms)] for every direct assignment to (adt, field) in f: atoms of the assigned value (plus ('XOP', op)
+        atoms for the operators of the value's expression tree, so that `x := y` can be told from `x := y - z`)"""
         out = []
         sl = self.N if narrow else self.S
+        prog = self.prog
+
+        def xops(rv):
+            ops = set()
+            if rv[0] == 'use':
+                ops = expr_ops(prog, f, rv[1])
+            elif rv[0] == 'bin':
+                ops = {('OP', norm_op(rv[1]))} | expr_ops(prog, f, rv[2]) | expr_ops(prog, f, rv[3])
+            return {('XOP', o[1]) for o in ops if o[0] == 'OP'}
         for bi, b in enumerate(f.blocks):
             if b.get('cleanup'):
                 continue
@@ -239,7 +276,7 @@ class Ctx:
                 if st[0] == '=' and st[1][1]:
                     last = [p for p in st[1][1] if isinstance(p, list) and p[0] == 'f']
                     if last and last[-1][3] == field and (last[-1][2] == adt or last[-1][2].endswith('::' + adt)):
-                        out.append((bi, sl.rvalue(f, st[2])))
+                        out.append((bi, sl.rvalue(f, st[2]) | xops(st[2])))
         return out
 
     def agg_field_atoms(self, f, adt, field, narrow=True):
@@ -256,7 +293,10 @@ class Ctx:
                         out.append((bi, sl.operand(f, st[2][2][fields.index(field)])))
         return out
 
-    def value_from(self, rule, key, f, atoms_list, pats, what, forbid=()):
+    def value_from(self, rule, key, f, atoms_list, pats, what, forbid=(), copy=False):
+        """copy=True: the value is a plain copy (its expression tree contains no arithmetic)"""
+        if copy:
+            forbid = tuple(forbid) + ('XOP:',)
         if not atoms_list:
             self.rep.ob(rule, key, False, 'no site found for "%s" in %s (fail closed)' % (what, f.id), self.loc(f))
             return False
